@@ -2,6 +2,7 @@
   Proofs/ReqPath (C02): helper lemmas for Props/C02 about `server_filterRequestHeader`.
 -/
 import InvProxy.Model.ReqPath
+import InvProxy.Proofs.ConnOpt
 namespace InvProxy.ReqPathP
 open InvProxy InvProxy.Gen
 
@@ -119,5 +120,13 @@ theorem foldl_wf (l : Hdr) (acc : Hdr) (hwf : RespPath.WF acc) : RespPath.WF (l.
     split
     · exact del_wf _ _ hwf
     · exact hwf
+
+/-- `Connection` is hop-by-hop for the proxy's filter -/
+theorem conn_is_hop : server_isHopByHopHeader Hdr.connKey = true := by decide
+
+/-- a header without `Connection` values names no further hop-by-hop field -/
+theorem not_mem_connDrops (h : Hdr) (e : Hdr.values h Hdr.connKey = []) (k : Bytes) :
+    k ∉ Hdr.connDrops h := by
+  rw [ConnOpt.connDrops_nil h e]; exact List.not_mem_nil
 
 end InvProxy.ReqPathP
